@@ -104,8 +104,14 @@ pub fn judge_linear(prop: &str, isa: Isa, acc: &mut Acc, c: &LinCase, cfg: &EmuC
     match &reference.end {
         Ok(_) => {}
         Err(Undefined::Stuck(_)) | Err(Undefined::Internal(_)) => {
-            acc.discard("linear program rejected by the positional machine (C05's business)");
-            return false;
+            // The value comparison needs a reference; the heap, footprint and calling-convention
+            // monitors do not: they judge the execution of the generated code itself, whatever
+            // produced the linear program.
+            if !matches!(prop, "C09" | "C10" | "C13") || isa == Isa::Rv {
+                acc.discard("linear program rejected by the positional machine (C05's business)");
+                return false;
+            }
+            acc.count("monitored_without_reference");
         }
         Err(u) => {
             acc.discard(&format!("reference undefined: {u:?}"));
@@ -251,6 +257,7 @@ pub fn run(ctx: &Ctx, acc: &mut Acc) {
     }
     // C10 judges growth: the shape invariant (C09's business) must not end its runs early
     let cfg = EmuConfig { enforce_shape: prop != "C10", ..EmuConfig::default() };
+    super::corpus::backend(ctx, acc, &cfg);
     let max_cases: u64 = if ctx.quick() { 3_000 } else { 10_000_000 };
     let mut i = 0u64;
     while ctx.time_left() && i < max_cases {
